@@ -628,3 +628,5 @@ def run(ctx, F):
     ctx.run_rule("C17-R2", "sha256::hash_2to1/hash_1to1, blake3::hash_2to1/hash_1to1, keccak256::hash: bit-level symbolic execution (ANF over GF(2), additions as hash-consed nodes) yields exactly the canonical form of the reference definition (FIPS 180-4, BLAKE3 spec, Keccak) on symbolic inputs", r2_reference, F)
     ctx.run_rule("C17-R3", "sha256::hash_memory: for every length residue len = 64q + r the padded length, block count, padding addresses and padding writes are those of SHA-256 padding (affine interpretation of the arithmetic prefix), the initial state is H(0), and one loop iteration is one compression of the 16 words at the current address with the address advanced by 4 and the counter decremented", r3_hash_memory, F)
     ctx.run_rule("C17-R1", "no hash procedure reads a procedure local (directly or through locaddr-derived addresses, across exec) before writing it in the same activation", r1_locals, F)
+    from . import rules_c18
+    ctx.run_rule("C17-R4", "native::hash_memory_even absorbs two words per iteration until the pointers meet; native::hash_memory rejects empty ranges, hashes the even prefix from the state [0 x 11, is_odd] and absorbs the odd last word mem[end - 1] with the padding [1,0,0,0]; digest = word B (= C18-R5's native part)", rules_c18.r5_native, F)
